@@ -55,17 +55,19 @@ Definition set_spop (count0 : Z) (s : setv) : option (list bytes * setv) :=
     Some (p, map (fun m => (m, tt)) k).
 Definition set_spop_modelled (s : setv) : bool := set_card s <=? 200.
 
-(* SScan(cursor, match, count): returns (cursor, keys) / (0, nil) when cursor >= len *)
-Fixpoint sscan_aux (count : Z) (pat : bytes) (acc : Z) (ms : list bytes) : list bytes :=
+(* SScan(cursor, match, count): the cursor is the number of members walked over by earlier
+   calls; returns (next cursor, members), next = 0 once the walk reached the end *)
+Fixpoint sscan_aux (cursor count : Z) (pat : bytes) (i : Z) (ms : list bytes) : Z * list bytes :=
   match ms with
-  | [] => []
+  | [] => (0, [])
   | m :: r =>
-      if (0 <? count) && (acc >=? count) then []
-      else if glob_match pat m then m :: sscan_aux count pat (acc + 1) r
-      else sscan_aux count pat acc r
+      if i <? cursor then sscan_aux cursor count pat (i + 1) r
+      else if (0 <? count) && (i >=? wrap64 (cursor + count)) then (i, [])
+      else let '(nx, ks) := sscan_aux cursor count pat (i + 1) r in
+           (nx, if glob_match pat m then m :: ks else ks)
   end.
 Definition set_sscan (cursor : Z) (pat : bytes) (count : Z) (s : setv) : Z * list bytes :=
-  if cursor >=? set_card s then (0, []) else (cursor, sscan_aux count pat 0 (set_members s)).
+  if cursor >=? set_card s then (0, []) else sscan_aux cursor count pat 0 (set_members s).
 
 (* SRandMember: validity of an answer the implementation gave (random choice) *)
 Fixpoint nodup_b (l : list bytes) : bool :=
